@@ -326,6 +326,53 @@ def run(ctx):
             ctx.inst('O3', 'Chunk.data', ok, 'Chunk.data = %s; must be the payload buffer read for this chunk' % show(dt)[:100], st['span'],
                      key=cr.name + '|O3|data')
 
+    # chunk framing accepts every conformant chunk: the only sizes rejected are those below the 6 byte chunk header and those
+    # beyond what the frame still holds.  A tighter test (`<= 6`: seed C01-h, an upper cap, an alignment demand) makes a
+    # well-formed file with such a chunk unloadable; what happens to a *malformed* size is C04/C16's business, not this rule's
+    if cr is not None:
+        view = fx.inlined_view(cr.name, ['asefile::parse::check_chunk_bytes']) or cr
+        HEADER = 6
+        nrej = 0
+
+        def is_size(t):
+            t = layout.unwrap_value(q.expand(t, fx, 2, layout.noinl(fx)))[0]
+            return layout.is_read_term(t) and bindings.get(t[3], ('', ''))[1] == 'chunk_size'
+        for sw in q.switches_on(view, lambda d: True):
+            tm = view.blocks[sw]['term']
+            if tm['ty'] != 'bool':
+                continue
+            cond = q.switch_cond(view, sw)
+            succs = view.cfg.succ[sw]
+            errs = [s_ for s_ in succs if q.arm_always_err(view, s_)]
+            if len(errs) != 1 or len(succs) != 2:
+                continue
+            vals = q.edge_value(view, sw, errs[0])
+            hs = q.holds_both(cond, q.bool_outcome(view, sw, vals if isinstance(vals, list) else [vals]))
+            hs = [(op, l, r_) for op, l, r_ in hs if is_size(l)]
+            if not hs:
+                if any(is_size(x) for x in walk(cond) if isinstance(x, tuple) and x and x[0] in ('call', 'cast', 'field')):
+                    nrej += 1
+                    ctx.inst('O3', 'framing#unknown-rejection', False, 'Chunk::read rejects on a condition over the chunk size that is neither '
+                             '`size < 6` nor `size > bytes left`: %s' % show(cond)[:100], tm.get('span'), key=cr.name + '|O3|framing|unknown')
+                continue
+            nrej += 1
+            op, l, r_ = hs[0]
+            k = q.const_fold(r_)
+            if k is not None:
+                below = {'Lt': k, 'Le': k + 1}.get(op)
+                ok = below == HEADER
+                what = 'sizes below %s' % below if below is not None else 'sizes %s %s' % (op, k)
+                ctx.inst('O3', 'framing#min-size', ok, 'Chunk::read rejects %s; a conformant chunk may be as small as its %d byte header, so exactly '
+                         'the sizes below %d may be rejected' % (what, HEADER, HEADER), tm.get('span'), key=cr.name + '|O3|framing|min')
+            else:
+                # against the bytes the frame still holds: only "more than is left" may be rejected
+                avail = any(isinstance(x, tuple) and len(x) == 3 and x[0] == 'param' and view.locals[x[1]]['ty'].replace(' ', '') in ('&muti64', 'i64')
+                            for x in walk(r_)) and not any(x[0] in ('bin', 'const') for x in walk(r_) if isinstance(x, tuple) and x)
+                ok = op == 'Gt' and avail
+                ctx.inst('O3', 'framing#available', ok, 'Chunk::read rejects size %s %s; only size > bytes left in the frame may be rejected'
+                         % (op, show(r_)[:60]), tm.get('span'), key=cr.name + '|O3|framing|avail')
+        ctx.floor('framing rejections on the chunk size', nrej, 2)
+
     # ---------------- O4 lookups / iteration
     lb = ctx.anchor('asefile::file::AsepriteFile::layer_by_name')
     if lb is not None:
